@@ -14,7 +14,7 @@ use std::{
 use serde::{de::DeserializeOwned, Deserialize, Serialize};
 use serde_json::{json, Value};
 
-use crate::engine::{Decision, Violation};
+use crate::{Decision, Violation};
 use crate::rng::{mix, Rng};
 
 #[derive(Default)]
